@@ -8,7 +8,7 @@
     check_lower_to_memory / check_lift_from_memory; it is evaluated by the check on the REAL streams and is
     not yet a theorem (see DESIGN.md, C01 staging). *)
 From Coq Require Import List NArith Arith.
-From WB Require Import Wit.Ty Canon.Spec Abi.Sig Abi.CastSem Abi.SigProofs Abi.LayoutProofs.
+From WB Require Import Wit.Ty Canon.Spec Abi.Sig Abi.Instr Abi.CastSem Abi.Gen Abi.SigProofs Abi.LayoutProofs Abi.GenDiscipline.
 Import ListNotations.
 
 Theorem C01_flat_types_exact : forall t max,
@@ -41,7 +41,22 @@ Theorem C01_payload_offset_is_canonical : forall pw tagb cs, pw = 4%N \/ pw = 8%
   a_size pw (sa_payload_offset tagb cs) = Spec.payload_offset pw tagb cs.
 Proof. exact payload_offset_canonical. Qed.
 
+(** Memory form, stack discipline: for EVERY type, every is_list_canonical oracle, every address operand and offset,
+    the memory-mode lowering of the generator model reaches no panic site (no stack underflow, no missing realloc,
+    no unreachable arm), consumes exactly the value operand it is given and leaves realloc / return-pointer
+    untouched; the public entry point lower_to_memory therefore always completes with an empty stack. *)
+Theorem C01_memory_lowering_consumes_its_operand : forall canon t addr off s x st r,
+  stack s = x :: st -> realloc s = Some r ->
+  ok_with (write canon t addr off) s (fun _ s' => stack s' = st /\ frame s s').
+Proof. exact write_ok. Qed.
+
+Theorem C01_lower_to_memory_never_panics : forall canon t,
+  ok_with (lower_to_memory canon t) gst0 (fun _ s' => stack s' = []).
+Proof. exact lower_to_memory_never_panics. Qed.
+
 Print Assumptions C01_flat_types_exact.
+Print Assumptions C01_memory_lowering_consumes_its_operand.
+Print Assumptions C01_lower_to_memory_never_panics.
 Print Assumptions C01_size_is_canonical.
 Print Assumptions C01_alignment_is_canonical.
 Print Assumptions C01_field_offsets_are_canonical.
